@@ -241,10 +241,58 @@ class Flow(Family):
                 return ("half-written", f"connection closed after {len(raw) // 2} of {len(want) // 2} response bytes")
         if obs["dropped"]:
             return ("bytes-after-close", f"{obs['dropped']} writes after the close")
+        if obs["h"] and raw and "close" not in acts and not obs.get("lost") and not obs.get("paused_end", True):
+            # the transport is accepting data (its last word was resume_writing, or it never paused), the peer is there,
+            # a response was begun: it must have been finished AND ended -- in Gemini the close is the end-of-response mark
+            return ("never-closed" if raw == want else "stuck-half-written",
+                    f"{len(raw) // 2} of {len(want) // 2} response bytes written, transport writable, peer connected, but the connection was not closed")
         return None
 
     def key(self, case, obs):
         return f"pieces{len([a for a in obs['acts'] if a != 'close'])}|closed{int('close' in obs['acts'])}|evs{min(len(case['evs']), 6)}"
 
 
-FAMILIES = [Events(), Render(), Pump(), Content(), Flow()]
+class LiveTail(Family):
+    """The real `start_server` (stdlib TLS transport) serving a file small enough that the whole response is handed to the
+    transport at once, to a client that reads 32 KiB and then pauses for 31 s of server time: close() has been called, the
+    rest is in the transport's buffer, and it must still arrive (asyncio's default ssl_shutdown_timeout of 30 s would tear
+    the connection down first -- the response would be neither whole nor absent).  Delegates to C06's live family."""
+    name = "livetail"
+    parallel = False
+    quick_n = 2
+    thorough_n = 8
+
+    def __init__(self):
+        from . import c06
+        self._live = c06.Live()
+
+    def gen(self, rng: random.Random, n: int):
+        from . import c06
+        sizes = [98304, 65536 + 16384, 49152, 114688, 131072, 65536, 40000, 100000]
+        rng.shuffle(sizes)
+        for sz in sizes[:n]:
+            d = c06.gen_dims(rng, sz + rng.randint(0, 64), True)
+            d.update({"btype": "str", "status": 20, "fill": "ascii", "meta": "f.gmi", "mode": "static", "supplied": rng.random() < 0.5,
+                      "reader": "stall", "stalls": 1, "sndbuf": 4096, "rcvbuf": 2048})
+            yield d
+
+    def impl(self, case):
+        return self._live.impl(case)
+
+    def model(self, case):
+        return self._live.model(case)
+
+    def expect(self, case, out):
+        return self._live.expect(case, out)
+
+    def same(self, expected, obs):
+        return self._live.same(expected, obs)
+
+    def oracle(self, case, obs):
+        return self._live.oracle(case, obs)
+
+    def key(self, case, obs):
+        return self._live.key(case, obs)
+
+
+FAMILIES = [Events(), Render(), Pump(), Content(), Flow(), LiveTail()]
